@@ -109,7 +109,10 @@ pub fn output_tokens(
     let method_items = out_trait
         .fns
         .iter()
-        .map(|trait_fn| gen_delegation_method(trait_fn, generic_idents, &attr, contains_async));
+        .map(|trait_fn| {
+            let trait_path = quote! { #trait_ident #args };
+            gen_delegation_method(trait_fn, trait_path, generic_idents, &attr, contains_async)
+        });
 
     let out = quote! {
         #trait_def
@@ -271,6 +274,7 @@ fn gen_impl_delegation_trait_defs(
 
 fn gen_delegation_method<'s>(
     trait_fn: &'s TraitFn,
+    trait_path: TokenStream,
     generic_idents: &'s GenericIdents,
     attr: &'s EntraitTraitAttr,
     contains_async: ContainsAsync,
@@ -331,19 +335,24 @@ fn gen_delegation_method<'s>(
             } else {
                 None
             };
-            let call = match ref_delegate {
+            // Fully qualified calls: method-call syntax would be resolved in the scope of the invocation
+            // (its prelude, its imports, other traits with a method of the same name)
+            let target = match ref_delegate {
                 RefDelegate::AsRef => {
                     quote! {
                         <#impl_t as ::#core::convert::AsRef<dyn #impl_trait_ident<#impl_t> #plus_sync>>::as_ref(&*#self_token)
-                            .#fn_ident #turbofish (#self_token, #(#arguments),*)
                     }
                 }
                 RefDelegate::Borrow => {
                     quote! {
                         <#impl_t as ::#core::borrow::Borrow<dyn #impl_trait_ident<#impl_t> #plus_sync>>::borrow(&*#self_token)
-                            .#fn_ident #turbofish (#self_token, #(#arguments),*)
                     }
                 }
+            };
+            let call = quote! {
+                <(dyn #impl_trait_ident<#impl_t> #plus_sync) as #impl_trait_ident<#impl_t>>::#fn_ident #turbofish (
+                    #target, #self_token, #(#arguments),*
+                )
             };
 
             DelegatingMethod {
@@ -356,14 +365,20 @@ fn gen_delegation_method<'s>(
             trait_fn,
             sig: fn_sig.clone(),
             call: quote! {
-                #self_token.as_ref().as_ref().#fn_ident #turbofish (#(#arguments),*)
+                <dyn #trait_path as #trait_path>::#fn_ident #turbofish (
+                    <#impl_t as ::#core::convert::AsRef<dyn #trait_path>>::as_ref(&*#self_token),
+                    #(#arguments),*
+                )
             },
         },
         (None, Some(SpanOpt(Delegate::ByRef(RefDelegate::Borrow), _))) => DelegatingMethod {
             trait_fn,
             sig: fn_sig.clone(),
             call: quote! {
-                #self_token.as_ref().borrow().#fn_ident #turbofish (#(#arguments),*)
+                <dyn #trait_path as #trait_path>::#fn_ident #turbofish (
+                    <#impl_t as ::#core::borrow::Borrow<dyn #trait_path>>::borrow(&*#self_token),
+                    #(#arguments),*
+                )
             },
         },
         _ => {
@@ -378,13 +393,17 @@ fn gen_delegation_method<'s>(
                 trait_fn,
                 sig: fn_sig.clone(),
                 call: if takes_self_by_value {
-                    // a `self` method cannot be called through the borrow from `as_ref()`
+                    // a `self` method cannot be called through a borrow of the inner value
+                    let entrait = &generic_idents.crate_idents.entrait;
                     quote! {
-                        #self_token.into_inner().#fn_ident #turbofish (#(#arguments),*)
+                        <#impl_t as #trait_path>::#fn_ident #turbofish (
+                            ::#entrait::Impl::into_inner(#self_token),
+                            #(#arguments),*
+                        )
                     }
                 } else {
                     quote! {
-                        #self_token.as_ref().#fn_ident #turbofish (#(#arguments),*)
+                        <#impl_t as #trait_path>::#fn_ident #turbofish (&*#self_token, #(#arguments),*)
                     }
                 },
             }
